@@ -479,6 +479,29 @@ func (e *stubEnv) external(r *engine.Run, fn *ssa.Function, args []engine.Value,
 		ps.Effects = append(ps.Effects, effectOf(name, fn, args))
 		panic(&engine.Abort{Kind: "exit", Reason: fmt.Sprintf("os.Exit(%d)", code), Code: code})
 	}
+	// any other function or method of package os: a recorded effect with success results
+	if fn.Pkg != nil && fn.Pkg.Pkg.Path() == "os" {
+		ps.Effects = append(ps.Effects, effectOf(name, fn, args))
+		res := fn.Signature.Results()
+		mk := func(t types.Type) engine.Value {
+			if _, ok := t.Underlying().(*types.Pointer); ok {
+				o := r.NewOpaque("os." + fn.Name())
+				return o
+			}
+			return engine.Zero(t)
+		}
+		switch res.Len() {
+		case 0:
+			return nil, true
+		case 1:
+			return mk(res.At(0).Type()), true
+		}
+		tu := make(engine.Tuple, res.Len())
+		for i := range tu {
+			tu[i] = mk(res.At(i).Type())
+		}
+		return tu, true
+	}
 	return nil, false
 }
 
@@ -616,6 +639,9 @@ func filepathStub(r *engine.Run, name string, args []engine.Value) (engine.Value
 		strs = append(strs, c)
 	}
 	short := name[strings.LastIndex(name, ".")+1:]
+	if allConc && (short == "Abs" || short == "Rel") {
+		return nil, false // concrete: computed natively by the bridge
+	}
 	if allConc {
 		switch short {
 		case "Join":
